@@ -249,6 +249,36 @@ fn main() {
                 Err(e) => format!("CRASH {}", script_error_kind(&e)),
             }
         }
+        "STK" => {
+            // diagnostic (not used by the check): sizes of the three call stacks after the run
+            let lines = dec_list(f[1]);
+            let init = dec_list(f[2]);
+            let mut context = sdk_context(true);
+            context.commands.set(Box::new(Emit)).expect("set emit");
+            context.commands.set(Box::new(Next)).expect("set next");
+            for kv in init.chunks(2) {
+                if kv.len() == 2 {
+                    context.variables.insert(kv[0].clone(), kv[1].clone());
+                }
+            }
+            TRACE.with(|t| t.borrow_mut().clear());
+            match runner::run_script(&lines.join("\n"), context, None) {
+                Ok(ctx) => ["ifelse", "while", "forin"]
+                    .iter()
+                    .map(|c| {
+                        let n = sub(&ctx.state, &format!("duckscriptsdk::command::{}", c))
+                            .and_then(|m| match m.get("call_stack") {
+                                Some(StateValue::List(l)) => Some(l.len()),
+                                _ => None,
+                            })
+                            .unwrap_or(0);
+                        format!("{}={}", c, n)
+                    })
+                    .collect::<Vec<_>>()
+                    .join(" "),
+                Err(e) => format!("CRASH {}", script_error_kind(&e)),
+            }
+        }
         "REG" => {
             let mut context = sdk_context(true);
             context.commands.set(Box::new(Emit)).expect("set emit");
